@@ -43,6 +43,35 @@ SUFFIX = {'type': 'type', 'min': 'min', 'min_length': 'min_length',
 
 C06_KINDS = [k for k in F.ALL_KINDS if k not in F.TZ_KINDS]
 
+# the input frame's index: records are identified by their index label
+INDEX_KINDS = ['default', 'stepped', 'offset', 'descending', 'int-labels']
+
+
+def index_labels(kind, n):
+    if kind == 'stepped':
+        return [2 * i for i in range(n)]
+    if kind == 'offset':
+        return [5 + i for i in range(n)]
+    if kind == 'descending':
+        return [n - 1 - i for i in range(n)]
+    if kind == 'int-labels':
+        return [100 - 3 * i if i % 2 else 7 * i for i in range(n)]
+    return list(range(n))
+
+
+def set_index(df, kind):
+    import pandas as pd
+    n = len(df)
+    if kind == 'stepped':
+        df.index = pd.RangeIndex(0, 2 * n, 2)
+    elif kind == 'offset':
+        df.index = pd.RangeIndex(5, 5 + n)
+    elif kind == 'descending':
+        df.index = pd.RangeIndex(n - 1, -1, -1)
+    elif kind == 'int-labels':
+        df.index = pd.Index(index_labels(kind, n), dtype='int64')
+    return df
+
 
 @st.composite
 def case_strategy(draw, tier):
@@ -50,6 +79,12 @@ def case_strategy(draw, tier):
                                   allow_big=False, simple_names=True,
                                   row_choices=[0, 1, 2, 3, 3, 4, 4, 5, 6,
                                                8]))
+    if len(frame['cols']) >= 2 and draw(st.integers(0, 2)) == 0:
+        # a field whose name is another field's name plus '_...': flag
+        # columns are attributed to fields by name prefix
+        frame['cols'][-1]['name'] = '%s_%s' % (
+            frame['cols'][0]['name'],
+            draw(st.sampled_from(['x', 'gbp', 'x_y', '1', 'min', 'ok'])))
     cons = draw(GC.constraint_set(frame, inside=True))
     names = [c['name'] for c in frame['cols']]
     of = draw(st.sampled_from(['none', 'all', 'subset']))
@@ -78,6 +113,7 @@ def case_strategy(draw, tier):
         'history': draw(st.lists(st.sampled_from(['viol', 'clean']),
                                  min_size=1, max_size=3)),
         'stale': draw(st.booleans()),
+        'index_kind': draw(st.sampled_from(INDEX_KINDS + ['default'] * 2)),
         'avoid_known': draw(st.sampled_from([True] * 7 + [False])),
     }
 
@@ -186,6 +222,7 @@ def valid(case):
             and isinstance(h, list) and 1 <= len(h) <= 3
             and all(x in ('viol', 'clean') for x in h)
             and isinstance(case.get('stale'), bool)
+            and case.get('index_kind', 'default') in INDEX_KINDS
             and case.get('epsilon') in (None, 0, 0.01, 0.5)
             and case.get('type_checking') in ('strict', 'sloppy'))
 
@@ -293,7 +330,8 @@ def run_inner(case, ctx):
         cons = case['constraints'] if what == 'viol' else clean_cons
         exp = exp_all if what == 'viol' else exp_clean
         cur_case = case if what == 'viol' else clean_case
-        df = F.build_frame(desc)
+        df = set_index(F.build_frame(desc), case.get('index_kind'))
+        labels = index_labels(case.get('index_kind'), n)
         before = df.copy(deep=True)
         before_index_name = df.index.name
         kw = dict(epsilon=case['epsilon'],
@@ -374,10 +412,15 @@ def run_inner(case, ctx):
             out.violate('detected-frame', 'none',
                         '%s: detected() is None' % tag)
         else:
-            if list(got.index) != want_rows:
+            # (when a typed file is written with an Index column, the
+            # labels move into that column of the returned frame too)
+            got_labels = (list(got['Index']) if 'Index' in got.columns
+                          else list(got.index))
+            if got_labels != [labels[i] for i in want_rows]:
                 out.violate('detected-frame', 'rows',
                             '%s: rows %r, expected %r (write_all=%s)'
-                            % (tag, list(got.index), want_rows,
+                            % (tag, got_labels,
+                               [labels[i] for i in want_rows],
                                o['write_all']))
             else:
                 self_check_frame(out, tag, got, want_rows, flags, exp_nf,
@@ -419,7 +462,8 @@ def self_check_frame(out, tag, got, want_rows, flags, exp_nf, desc, o):
     names = [c['name'] for c in desc['cols']]
     of = o['output_fields']
     want_orig = [] if of is None else (names if of == [] else list(of))
-    flag_cols = [c for c in cols if c.endswith('_ok')]
+    flag_cols = [c for c in cols if c.endswith('_ok')
+                 and c not in want_orig]
     if o['per_constraint']:
         if set(flag_cols) != set(flags):
             out.violate('flags', 'columns',
@@ -508,6 +552,16 @@ def check_file(out, tag, path, case, want_rows, exp_nf, flags, o):
     except Exception as e:
         if os.path.getsize(path) == 0 or not want_rows:
             return
+        if (not path.endswith('.parquet') and o['output_fields'] is not None
+                and any(F.tdda_type(c['kind']) == 'string'
+                        and any(isinstance(x, str) and '\r' in x
+                                for x in c['cells'])
+                        for c in case['frame']['cols'])):
+            # a raw CR inside a copied string column: pandas' CSV writer
+            # does not quote it and pandas' reader then rejects the file;
+            # that says nothing about tdda (see below)
+            out.label('csv-with-raw-strings-not-reparsed')
+            return
         out.violate('output-file', 'unreadable',
                     '%s: %s: %s' % (tag, type(e).__name__, str(e)[:200]))
         return
@@ -540,10 +594,13 @@ def check_file(out, tag, path, case, want_rows, exp_nf, flags, o):
                     '%s: file has n_failures %r, expected %r for rows %r'
                     % (tag, nf, want, want_rows))
         return
-    if 'Index' in f.columns and [int(x) for x in f['Index']] != want_rows:
+    labels = index_labels(case.get('index_kind'), case['frame']['n'])
+    if 'Index' in f.columns and [int(x) for x in f['Index']] != [
+            labels[i] for i in want_rows]:
         out.violate('output-file', 'index',
-                    '%s: Index column %r, rows %r'
-                    % (tag, list(f['Index']), want_rows))
+                    '%s: Index column %r, labels of the rows %r'
+                    % (tag, list(f['Index']),
+                       [labels[i] for i in want_rows]))
     if o['per_constraint']:
         for fc in flags:
             if fc not in f.columns:
